@@ -11,7 +11,7 @@
    without TypedDict at token level, and for any annotation relative to C11's per-annotation denotation property.
    Stated, not proved: C01_full (text level with generated TypedDict classes) — see the comment there. *)
 From MT Require Import Types Infer Rewrite Hier TypesFacts GetTypeSound RewriteMono Encode EncodeRoundtrip
-                       EncodeExamples Render RenderTok PipelineCorr Pipeline PipelineRender.
+                       EncodeExamples Render RenderTok PipelineCorr Pipeline PipelineInferable PipelineRender.
 
 (* ---- the correspondence relation of the store round trip (union members as multisets, TypedDict fields as
         finite maps) preserves membership, under either reading of Any, for every subclass test ---- *)
@@ -99,11 +99,18 @@ Proof. exact Pipeline.pipeline_sound_no_rewriter. Qed.
 Print Assumptions pipeline_sound_no_rewriter.
 
 (* ---- the store hypothesis discharged from C08's round trip ----
-   ts: the per-value inferred types; stored: exactly the decodings of their encodings, in any order and
-   multiplicity.  cname / site / env / hidden and typing_ok / importable are C08's (external behaviour of
-   importlib, universally quantified).  `inferable t` (no Tuple[T, ...], no forward reference, unions in typing's
-   normal form, TypedDict keys distinct) is an explicit premise per inferred type: that get_type only produces
-   such types is evaluated per case, not proved. *)
+   cname / site / env / hidden, typing_ok and importable are C08's (external behaviour of importlib and of the
+   classes' __module__/__qualname__, universally quantified). *)
+
+(* every type get_type produces is in C08's domain: no Tuple[T, ...], no forward reference, every Union in
+   typing's normal form, TypedDict keys distinct *)
+Theorem get_type_inferable :
+  forall k v t, wf_valueb v = true -> get_type k v = Some t -> inferable t.
+Proof. exact PipelineInferable.get_type_inferable. Qed.
+Print Assumptions get_type_inferable.
+
+(* ts: the per-value inferred types; stored: exactly the decodings of their encodings, in any order and
+   multiplicity.  The only premise left about the store is that the classes of the inferred types are importable. *)
 Theorem pipeline_sound_store :
   forall (cname : cls -> string * string) (site : string) (env : string -> string -> lookup)
          (hidden : string -> option cls)
@@ -112,15 +119,15 @@ Theorem pipeline_sound_store :
     typing_ok env ->
     forallb wf_valueb obs = true ->
     mapM (get_type k) obs = Some ts ->
-    Forall (fun t => inferable t /\ Forall (importable cname env hidden) (classes t)) ts ->
+    Forall (fun t => Forall (importable cname env hidden) (classes t)) ts ->
     (forall t', In t' stored <->
                 exists t, In t ts /\ exists j, type_to_json cname site t = Ok j /\ type_from_json env hidden j = Ok t') ->
     shrink_top k stored = Some T -> In v obs ->
     member true (subclass h) v (rw_chain h bt rs T) = true.
-Proof. exact Pipeline.pipeline_sound_store. Qed.
+Proof. exact pipeline_sound_store_inferred. Qed.
 Print Assumptions pipeline_sound_store.
 
-(* the same with the round trip as a function (store_rt = decode after encode) *)
+(* the same with the round trip as a function (store_rt = decode after encode), which is total here *)
 Theorem pipeline_sound_store_fn :
   forall (cname : cls -> string * string) (site : string) (env : string -> string -> lookup)
          (hidden : string -> option cls)
@@ -129,13 +136,22 @@ Theorem pipeline_sound_store_fn :
     typing_ok env ->
     forallb wf_valueb obs = true ->
     mapM (get_type k) obs = Some ts ->
-    Forall (fun t => inferable t /\ Forall (importable cname env hidden) (classes t)) ts ->
+    Forall (fun t => Forall (importable cname env hidden) (classes t)) ts ->
     mapM (store_rt cname site env hidden) ts = Some ds ->
     (forall t', In t' stored <-> In t' ds) ->
     shrink_top k stored = Some T -> In v obs ->
     member true (subclass h) v (rw_chain h bt rs T) = true.
-Proof. exact Pipeline.pipeline_sound_store_fn. Qed.
+Proof. exact pipeline_sound_store_fn_inferred. Qed.
 Print Assumptions pipeline_sound_store_fn.
+
+Theorem store_roundtrip_total :
+  forall (cname : cls -> string * string) (site : string) (env : string -> string -> lookup)
+         (hidden : string -> option cls) k obs ts,
+    typing_ok env -> forallb wf_valueb obs = true -> mapM (get_type k) obs = Some ts ->
+    Forall (fun t => Forall (importable cname env hidden) (classes t)) ts ->
+    exists ds, mapM (store_rt cname site env hidden) ts = Some ds.
+Proof. exact store_rt_total. Qed.
+Print Assumptions store_roundtrip_total.
 
 (* ---- the rendering step ---- *)
 
@@ -317,7 +333,7 @@ Example ex_c01_store :
   typing_ok ex_ev
   /\ forallb wf_valueb ex_obs_store = true
   /\ mapM (get_type 2) ex_obs_store = Some ts
-  /\ Forall (fun t => inferable t /\ Forall (importable ex_cn ex_ev ex_hd) (classes t)) ts
+  /\ Forall (fun t => Forall (importable ex_cn ex_ev ex_hd) (classes t)) ts
   /\ mapM (store_rt ex_cn "monkeytype.typing" ex_ev ex_hd) ts = Some ds
   /\ (forall t', In t' stored <-> In t' ds)
   /\ shrink_top 2 stored
